@@ -3,10 +3,102 @@ C17 — lemmas for the CV-certificate theorems (PropsCVC.lean).  No Mathlib.
 -/
 import Bee2V.C17.ModelCVC
 import Bee2V.C17.Laws
+import Bee2V.C12.Props
 namespace Bee2V.C17
 open Bee2V.Gen.C17Src
 
 theorem nameMin_eq : nameMin = 8 := by decide
 theorem nameMax_eq : nameMax = 12 := by decide
+theorem pubLens_eq : pubLens = [48, 64, 96, 128] := by decide
+theorem privLens_eq : privLens = [24, 32, 48, 64] := by decide
+theorem keyBits_eq : keyBits = [384, 512, 768, 1024] := by decide
+
+/-- big-endian value of an octet string (the order memCmp decides) -/
+def beNat : Bytes → Nat
+  | [] => 0
+  | x :: xs => x.toNat * 256 ^ xs.length + beNat xs
+
+theorem beNat_lt (xs : Bytes) : beNat xs < 256 ^ xs.length := by
+  induction xs with
+  | nil => simp [beNat]
+  | cons x xs ih =>
+    simp only [beNat, List.length_cons, Nat.pow_succ]
+    have := x.toNat_lt
+    have h1 : x.toNat * 256 ^ xs.length ≤ 255 * 256 ^ xs.length := Nat.mul_le_mul_right _ (by omega)
+    omega
+
+/-- memCmp(l, r, n) ≤ 0 ⇔ l ≤ r as big-endian numbers (equal lengths) -/
+theorem memLeq_iff (l r : Bytes) (h : l.length = r.length) : memLeq l r = true ↔ beNat l ≤ beNat r := by
+  induction l generalizing r with
+  | nil =>
+    cases r with
+    | nil => simp [memLeq, beNat]
+    | cons y ys => simp at h
+  | cons x xs ih =>
+    cases r with
+    | nil => simp at h
+    | cons y ys =>
+      have hl : xs.length = ys.length := by simpa using h
+      have bx := beNat_lt xs
+      have by' := beNat_lt ys
+      simp only [memLeq, beNat, hl]
+      have hpos : 0 < 256 ^ ys.length := Nat.pow_pos (by omega)
+      rw [hl] at bx
+      by_cases h1 : x < y
+      · have : x.toNat + 1 ≤ y.toNat := by exact UInt8.lt_iff_toNat_lt.mp h1
+        have := Nat.mul_le_mul_right (256 ^ ys.length) this
+        simp only [h1, if_true, true_iff]
+        rw [Nat.add_mul] at this
+        omega
+      · by_cases h2 : y < x
+        · have : y.toNat + 1 ≤ x.toNat := by exact UInt8.lt_iff_toNat_lt.mp h2
+          have := Nat.mul_le_mul_right (256 ^ ys.length) this
+          simp only [h1, h2, if_false, if_true, Bool.false_eq_true, false_iff]
+          rw [Nat.add_mul] at this
+          omega
+        · have hxy : x = y := by
+            apply UInt8.toNat_inj.mp
+            have a : ¬ x.toNat < y.toNat := fun h => h1 (UInt8.lt_iff_toNat_lt.mpr h)
+            have b : ¬ y.toNat < x.toNat := fun h => h2 (UInt8.lt_iff_toNat_lt.mpr h)
+            omega
+          subst hxy
+          simp only [h1, if_false]
+          rw [ih ys hl]
+          omega
+
+theorem ofR_err {α : Type} {r : Bee2V.C08.R α} {e0 e : E} (h : ofR r e0 = .error e) : e = e0 ∨ e = .oob := by
+  unfold ofR at h
+  split at h <;> cases h <;> simp
+
+theorem ofR_ok {α : Type} {r : Bee2V.C08.R α} {e0 : E} {a : α} (h : ofR r e0 = .ok a) : r = .ok a := by
+  unfold ofR at h
+  split at h <;> cases h
+  rfl
+
+theorem sigLenOf_err {vk : Option Bytes} {rest : Bytes} {e : E} (h : sigLenOf vk rest = .error e) :
+    e = .badFormat ∨ e = .oob := by
+  unfold sigLenOf at h
+  split at h
+  · cases h
+  · exact ofR_err h
+
+/-- btokCVCUnwrap never "fails with ERR_OK" -/
+theorem cvcUnwrap_go_err (S : Sig) (cert : Bytes) (pk : Option Bytes) (self : Bool) (e : E)
+    (h : cvcUnwrap.go S cert pk self = .error e) : e ≠ .ok := by
+  unfold cvcUnwrap.go at h
+  dsimp only at h
+  repeat' (first
+    | (cases h <;> first | assumption | (have := ofR_err (by assumption); rcases this with rfl | rfl <;> intro hh <;> cases hh) | (have := sigLenOf_err (by assumption); rcases this with rfl | rfl <;> intro hh <;> cases hh) | (intro hh; cases hh; done))
+    | split at h)
+
+theorem cvcUnwrap_err (S : Sig) (cert : Bytes) (arg : PkArg) (e : E) (h : cvcUnwrap S cert arg = .error e) : e ≠ .ok := by
+  unfold cvcUnwrap at h
+  split at h
+  · cases h; intro hh; cases hh
+  · split at h
+    · cases h; intro hh; cases hh
+    · exact cvcUnwrap_go_err S cert _ _ e h
+  · exact cvcUnwrap_go_err S cert _ _ e h
+  · exact cvcUnwrap_go_err S cert _ _ e h
 
 end Bee2V.C17
